@@ -1,0 +1,42 @@
+// Copyright 2026 Dolthub, Inc.
+//
+// Licensed under the Apache License, Version 2.0 (the "License");
+// you may not use this file except in compliance with the License.
+// You may obtain a copy of the License at
+//
+//     http://www.apache.org/licenses/LICENSE-2.0
+//
+// Unless required by applicable law or agreed to in writing, software
+// distributed under the License is distributed on an "AS IS" BASIS,
+// WITHOUT WARRANTIES OR CONDITIONS OF ANY KIND, either express or implied.
+// See the License for the specific language governing permissions and
+// limitations under the License.
+
+//go:build verif
+
+package nbs
+
+import "github.com/dolthub/dolt/go/store/hash"
+
+// Property-level lemmas (ghost code). Each is verified from the contracts of the functions it calls.
+
+func verif_lemma_rootrec_roundtrip(buf []byte, root hash.Hash) {
+	writeRootHashRecord(buf, root)
+	verif_assert(validateJournalRecord(buf) == nil)
+	rec, err := readJournalRecord(buf)
+	verif_assert(err == nil)
+	verif_assert(rec.kind == rootHashJournalRecKind)
+	verif_assert(rec.address == root)
+	verif_assert(rec.length == 40)
+}
+
+func verif_lemma_chunkrec_roundtrip(buf []byte, c CompressedChunk) {
+	writeChunkRecord(buf, c)
+	verif_assert(validateJournalRecord(buf) == nil)
+	rec, err := readJournalRecord(buf)
+	verif_assert(err == nil)
+	verif_assert(rec.kind == chunkJournalRecKind)
+	verif_assert(rec.address == c.H)
+	verif_assert(len(rec.payload) == len(c.FullCompressedChunk))
+	verif_assert(verif_forall(0, len(rec.payload), func(i int) bool { return rec.payload[i] == c.FullCompressedChunk[i] }))
+}
